@@ -949,6 +949,24 @@ func (ex *Exec) intBinop(op token.Token, a, b *Term, xt, rt types.Type) Value {
 				return Int{a}
 			}
 		}
+		if op == token.AND || op == token.AND_NOT {
+			// the intervals did not decide it: case split on whether x lies below the lowest bit of the constant
+			// mask (then x & m == 0 and x &^ m == x); usually only that side is feasible on the path
+			x, m := a, b
+			if op == token.AND && a.IsConst() {
+				x, m = b, a
+			}
+			if m.IsConst() && m.C.Sign() > 0 && !x.IsConst() {
+				low := new(big.Int).And(m.C, new(big.Int).Neg(m.C))
+				below := f.And(f.Le(f.I64(0), x), f.Lt(x, f.Int(low)))
+				if ex.branchNoSite(below) { // a recorded decision: forks only if x can also reach the mask (that side is an engine error)
+					if op == token.AND {
+						return Int{f.I64(0)}
+					}
+					return Int{x}
+				}
+			}
+		}
 		panic(engineErr(fmt.Sprintf("bit operation %s on symbolic operands", op)))
 	}
 	panic(engineErr("int binop " + op.String()))
